@@ -2305,8 +2305,16 @@ class Connection_Manager( Object ):
             if log.isEnabledFor( logging.DETAIL ):
                 log.detail( "%s Routing request to target Object at address %s", self, enip_format( targetpath ))
             # We have the service and path. Find the target Object (see state_multiple_service.closure)
-            ids			= resolve( targetpath.path )
-            target		= lookup( *ids )
+            try:
+                ids		= resolve( targetpath.path )
+                target		= lookup( *ids )
+            except Exception as exc:
+                ids,target	= (None,None,None),None
+            if target is None:
+                # The request path names no known Object (eg. an unknown Tag).  Let the Message Router
+                # answer it with the appropriate CIP error status, exactly as it does when the same
+                # request arrives over a connection, or within a Multiple Service Packet.
+                target		= lookup( Message_Router.class_id, 1 )
             if log.isEnabledFor( logging.DETAIL ):
                 log.detail( u"{} Found target object for address {} resolves to {}: {!r}".format(
                     self,
